@@ -1,13 +1,14 @@
 (* Driver for the extracted Message-routing model (C05).  Reads the same cases as harness/route_h.cpp
    (the grammar is documented there) and prints the same canonical text.
 
-   The external matching code of the model (class MatchOps) is instantiated with the extracted StringMatcher
-   model of C15 (Pat/Translate.v + Pat/Ere.v):
+   The external matching code of the model (class MatchOps) is the instance pat_ops of Refl/PatInst.v, defined in Coq
+   over the StringMatcher model of C15 (Pat/Translate.v + Pat/Ere.v) and proved there to satisfy the clause laws:
      clause  = the clause text; "*" is the NULL matcher
      cmatch  = StringMatcher::Match of SetPattern(text) (simple syntax)
      ckeys   = Refl/ClauseKeys.v clause_keys (IsPatternListOfUniqueValues / IsPatternUnique + the key parsing
                of DoTraversalAux / DoDirectChildLookup)
      filter  = g<n> | l<n> | e<n> on the int32 field "v" (false when the field is missing), x = "v" exists
+   This driver only supplies the intern table (name number <-> string) and memoises the two pure functions.
    Names are interned strings, payload 0 = empty Message, v -> v+1.
    With the argument --fixed / --as-found the model runs with all repairs on / off instead of following the
    translated c_c05_* flags. *)
@@ -37,50 +38,55 @@ let name_str (x : n) : string = match Hashtbl.find_opt rev_tbl (int_of_n x) with
 let chars_of (s : string) : n list = List.init (String.length s) (fun i -> n_of_int (Char.code s.[i]))
 let string_of_chars (l : n list) : string = String.concat "" (List.map (fun c -> String.make 1 (Char.chr (int_of_n c land 255))) l)
 
-(* ---- wildcard clauses through the StringMatcher model *)
-let sm_cache : (string, sm) Hashtbl.t = Hashtbl.create 64
+(* ---- the MatchOps instance: Refl/PatInst.v pat_ops over the intern table (memoised; the functions are pure) *)
 let unsupported = ref false
-let compile (c : string) : sm =
-  match Hashtbl.find_opt sm_cache c with
-  | Some s -> s
-  | None ->
-    if not (regex_supported (chars_of c) true) then unsupported := true;
-    let (s, _) = set_pattern ere_engine sm_init (chars_of c) true in
-    Hashtbl.add sm_cache c s; s
+let z_of_int k = if k = 0 then Z0 else if k > 0 then Zpos (pos_of_int k) else Zneg (pos_of_int (-k))
+let int_of_z = function Z0 -> 0 | Zpos p -> int_of_pos p | Zneg p -> - (int_of_pos p)
+let clause_text (c : Obj.t) : string = string_of_chars (Obj.obj c : n list)
+let keep_esc : bool =
+  if Array.length Sys.argv > 1 && Sys.argv.(1) = "--fixed" then true
+  else if Array.length Sys.argv > 1 && Sys.argv.(1) = "--as-found" then false
+  else uv_keep_as_is
+let base_ops : matchOps =
+  pat_ops (fun k -> chars_of (name_str k)) (fun s -> intern (string_of_chars s)) keep_esc
 let match_cache : (string * string, bool) Hashtbl.t = Hashtbl.create 256
-let clause_match (c : string) (s : string) : bool =
-  if c = "*" then true else
-  match Hashtbl.find_opt match_cache (c, s) with
-  | Some b -> b
-  | None -> let b = matches (compile c) (chars_of s) in Hashtbl.add match_cache (c, s) b; b
-let clause_keys_str (c : string) : string list option =
-  if c = "*" then None else
-  match clause_keys (compile c) with
-  | None -> None
-  | Some ks -> Some (List.map string_of_chars ks)
+let keys_cache : (string, string list option) Hashtbl.t = Hashtbl.create 64
+let checked : (string, unit) Hashtbl.t = Hashtbl.create 64
+let check_supported (c : string) =
+  if not (Hashtbl.mem checked c) then begin
+    Hashtbl.add checked c ();
+    if c <> "*" && not (regex_supported (chars_of c) true) then unsupported := true
+  end
+let ops : matchOps = {
+  base_ops with
+  cmatch = (fun c x ->
+    let cs = clause_text c and xs = name_str x in
+    check_supported cs;
+    match Hashtbl.find_opt match_cache (cs, xs) with
+    | Some b -> b
+    | None -> let b = base_ops.cmatch c x in Hashtbl.add match_cache (cs, xs) b; b);
+  ckeys = (fun c ->
+    let cs = clause_text c in
+    check_supported cs;
+    match Hashtbl.find_opt keys_cache cs with
+    | Some r -> (match r with None -> None | Some ks -> Some (List.map intern ks))
+    | None ->
+      let r = base_ops.ckeys c in
+      Hashtbl.add keys_cache cs (match r with None -> None | Some ks -> Some (List.map name_str ks)); r);
+}
 
-type fspec = FG of int | FL of int | FE of int | FX
 let fspec_of_string (s : string) : fspec =
   if s = "x" then FX else
-  let v = int_of_string (String.sub s 1 (String.length s - 1)) in
+  let v = z_of_int (int_of_string (String.sub s 1 (String.length s - 1))) in
   match s.[0] with 'g' -> FG v | 'l' -> FL v | _ -> FE v
-let fspec_str = function FG v -> "g" ^ string_of_int v | FL v -> "l" ^ string_of_int v | FE v -> "e" ^ string_of_int v | FX -> "x"
-let fspec_match (f : fspec) (p : int) : bool =
-  if p = 0 then false else
-  let v = p - 1 in match f with FG k -> v > k | FL k -> v < k | FE k -> v = k | FX -> true
-
-let ops : matchOps = {
-  clause_eqb = (fun a b -> (Obj.obj a : string) = (Obj.obj b : string));
-  cmatch = (fun c x -> clause_match (Obj.obj c : string) (name_str x));
-  ckeys = (fun c -> match clause_keys_str (Obj.obj c : string) with None -> None | Some ks -> Some (List.map intern ks));
-  cstar = Obj.repr "*";
-  fmatch = (fun f p -> fspec_match (Obj.obj f : fspec) (int_of_n p));
-}
+let fspec_str = function
+  | FG v -> "g" ^ string_of_int (int_of_z v) | FL v -> "l" ^ string_of_int (int_of_z v)
+  | FE v -> "e" ^ string_of_int (int_of_z v) | FX -> "x"
 
 (* ---- parsing *)
 let split c s = String.split_on_char c s
 let items s = if s = "" then [] else split '&' s
-let clauses_of (s : string) : Obj.t list = List.map (fun x -> Obj.repr x) (split '/' s)
+let clauses_of (s : string) : Obj.t list = List.map (fun x -> Obj.repr (chars_of x)) (split '/' s)
 let key_text (s : string) : string = if s = "%" then "" else s
 (* a key as PutPathFromString(key, filter, DEFAULT_PATH_PREFIX) sees it *)
 let spath_of (s0 : string) : spath =
@@ -105,7 +111,7 @@ let max_of (s : string) : nat option = let v = (try int_of_string s with _ -> -1
 (* ---- printing *)
 let path_str (p : path) : string = String.concat "" (List.map (fun x -> "/" ^ name_str x) p)
 let payload_str (p : n) : string = let v = int_of_n p in if v = 0 then "-" else string_of_int (v - 1)
-let pat_str (p : Obj.t list) : string = String.concat "/" (List.map (fun c -> (Obj.obj c : string)) p)
+let pat_str (p : Obj.t list) : string = String.concat "/" (List.map clause_text p)
 let flt_str (f : Obj.t option) : string = match f with None -> "" | Some f -> "@" ^ fspec_str (Obj.obj f : fspec)
 let field_str = function
   | SAbsent -> "-"
